@@ -7,9 +7,37 @@
    (coq/C11/Spec_C11.v) applied to obj_of, the observed object of a model object. *)
 From Coq Require Import NArith ZArith List Bool.
 From F8 Require Import Codec.Bytes Codec.Meta Codec.Extract Codec.Decode Codec.Encode Codec.Render Codec.Example
-                       C11.Copy C11.Spec_C11 C11.Hyp C11.Examples C11.WitnessProofs.
+                       C11.Copy C11.Spec_C11 C11.Hyp C11.Examples C11.WitnessProofs
+                       C11.CopyProofs C11.CountProofs C11.CloneProofs.
 Import ListNotations.
 Local Open Scope N_scope.
+
+(* "For every message, a clone encodes to the same bytes as the original" -- for every message that
+   satisfies clone_ok (coq/C11/Hyp.v): each part's _pos is in strictly increasing schema order
+   (API-built messages; messages decoded from in-order input), every _pos entry is backed by _fields
+   and a present bit and vice versa, no pass-through bytes, the constructor-owned fields 8, 9, 10 are
+   still suppressed (never encoded) and BeginString is the constructor's, the target's deep
+   constructor provides the groups; recursively for every group element, to any nesting depth.
+   Whenever the original encodes, the clone exists and encodes to exactly the same bytes. *)
+Theorem c11_clone_partial : forall c m md,
+  find_msg (c_msgs c) (m_type m) = Some md -> clone_ok c md m = true ->
+  forall b m1, msg_encode c m = Ok (b, m1) ->
+  exists t m2, clone c m = Ok t /\ msg_encode c t = Ok (b, m2).
+Proof. exact c11_clone_lemma. Qed.
+Print Assumptions c11_clone_partial.
+
+(* "copying legal fields into an empty message of the same type transfers every field and group
+   element": copy_legal of a source satisfying src_ok into a fresh deep object t0 of the same class
+   (nothing present, empty pre-created groups) succeeds, returns the number of fields of the source
+   at every level (the oracle's count_fields), and yields an object with the same content (the
+   oracle's same_content: every field, every element of every group, recursively) that encodes like
+   the source.  By induction over the group tree: unbounded in the number of elements and in depth. *)
+Theorem c11_copy_legal_partial : forall s t0, src_ok s t0 = true ->
+  exists t, copy_legal false s t0 = Ok (count_fields (obj_of s), t) /\
+            same_content (obj_of s) (obj_of t) = true /\
+            (forall c b, mb_encode c s = Ok b -> mb_encode c t = Ok b).
+Proof. exact c11_copy_legal_lemma. Qed.
+Print Assumptions c11_copy_legal_partial.
 
 (* A message decoded from valid input whose tokens are not in schema order re-encodes in ARRIVAL
    order (the decoder keys _pos by arrival index) whereas its clone encodes in SCHEMA order
